@@ -208,3 +208,74 @@ DESCR["C14"] = {
     "level": "Bounded model checking of the real MessageEncoder::encode with the output buffer length as a symbolic dimension (0..48) and a symbolic pre-fill: Ok exactly when the buffer is long enough, exact size, bytes beyond it untouched, never a panic.",
     "note": "Small messages only (one attribute, <= 48 bytes); the 64 KiB half of the property is handled separately (see evidence/DESIGN).",
 }
+
+# ---------------------------------------------------------------------------------------------
+# agent-slice glue harnesses (real client.rs over the environment model)
+# ---------------------------------------------------------------------------------------------
+GL = "client::verif_client::"
+ENVM = "stun_rs (whole crate) -> /verif/shim/stun-rs environment model: decode = Err | any class with the id of a live / unknown request; encode = Err | Ok"
+LIGHT = "agent modules fingerprint / st_cred_mech / lt_cred_mech / message -> light models returning the verdict chosen by the harness (fingerprint Ok(true|false)|Err; mechanism Ok|Discarded|NotRetryable|ProtectionViolated|Retry, for indications Ok|Discarded only)"
+QMODEL = "StunMessageTimeout::{add,remove,next_timeout,check} -> 2-slot contract model (the contract verified on the real queue by the C11 kernel); due/not-due concrete per instance, made consistent with the symbolic instant by an assume"
+RMODEL = "RtoManager::next_rto -> Some(positive interval) | None chosen by the harness (the contract verified on the real schedule by the C06 kernel)"
+RTTREC = "RttCalcuator::{update,reset} -> recording stubs (arithmetic verified by the C15 kernel)"
+VMAP = "std HashMap in client.rs -> VecMap (linear-scan map with the same API subset; hashbrown is out of CBMC's reach)"
+_GS = [NOFMT, CDS, ENVM, LIGHT, QMODEL, RMODEL, RTTREC, VMAP]
+_GF = ["StunClient::send_request", "StunClient::send_indication", "StunClient::on_buffer_recv", "StunClient::on_timeout", "StunClient::events", "StunClient::set_timeout", "StunClient::transaction_finished", "client::process_integrity_error", "client::prepare_stun_message", "TransactionEventHandler/TransactionEvents (events.rs)"]
+
+
+def _g(name, tier="quick", timeout=1500, mem=12, bounds="", covers=None):
+    return H("slice", GL + name, tier=tier, timeout=timeout, mem_gb=mem, covers=covers, stubs=_GS, funcs=_GF, bounds=bounds, playback=False)
+
+
+_G_TIMEOUT1 = [
+    _g("glue_timeout_k1_notdue", bounds="1 live request (send instant Some/None, arbitrary deadline), on_timeout at an arbitrary instant before the deadline", covers=0),
+    _g("glue_timeout_k1_due_unreliable", bounds="1 live request, deadline due, arbitrary instant, schedule answers Some(any interval)/None", covers=2),
+    _g("glue_timeout_k1_due_reliable", bounds="as above on reliable transport", covers=2),
+    _g("glue_timeout_k1_due_st", bounds="as above with short-term mechanism (marker verdict arbitrary)", covers=2),
+    _g("glue_timeout_k1_due_lt", tier="thorough", bounds="as above with long-term mechanism", covers=2),
+]
+_G_TIMEOUT2 = [
+    _g("glue_timeout_k2_none_due", tier="thorough", timeout=2400, mem=16, bounds="2 live requests, none due", covers=1),
+    _g("glue_timeout_k2_first_due", tier="thorough", timeout=2400, mem=16, bounds="2 live requests, first due", covers=1),
+    _g("glue_timeout_k2_second_due", tier="thorough", timeout=2400, mem=16, bounds="2 live requests, second due", covers=1),
+    _g("glue_timeout_k2_both_due", timeout=2400, mem=16, bounds="2 live requests, both due, each schedule answer arbitrary", covers=2),
+]
+_G_SEND = [
+    _g("glue_base", timeout=300, mem=4, bounds="fresh client", covers=0),
+    _g("glue_send_k0", bounds="0 live, limit 0..3 symbolic, request or indication, encode/prepare may fail, buffer 8 or 20 bytes", covers=1),
+    _g("glue_send_k1", bounds="1 live, limit 1..3 symbolic, request or indication", covers=2),
+    _g("glue_send_k2", tier="thorough", timeout=2400, mem=16, bounds="2 live, limit 2..3 symbolic", covers=1),
+    _g("glue_send_k1_lt", tier="thorough", bounds="1 live, long-term mechanism model", covers=2),
+]
+_G_RECV = [
+    _g("glue_recv_k0", bounds="0 live; decode Err | any class, unknown id; all verdicts", covers=0),
+    _g("glue_recv_k1", timeout=2400, mem=16, bounds="1 live (send instant Some/None); decode Err | any class with live/unknown id", covers=2),
+    _g("glue_recv_k1_fp", timeout=2400, mem=16, bounds="as k1 with use_fingerprint and fingerprint verdict Ok(true)/Ok(false)/Err", covers=3),
+    _g("glue_recv_k1_st", timeout=2400, mem=16, bounds="as k1 with short-term mechanism model, all five verdicts", covers=3),
+    _g("glue_recv_k1_st_fp", tier="thorough", timeout=2400, mem=16, bounds="as k1 with fingerprint and short-term mechanism", covers=3),
+    _g("glue_recv_k1_lt", tier="thorough", timeout=2400, mem=16, bounds="as k1 with long-term mechanism model", covers=3),
+    _g("glue_recv_k2", tier="thorough", timeout=3000, mem=20, bounds="2 live", covers=2),
+    _g("glue_recv_k2_st_fp", tier="thorough", timeout=3000, mem=20, bounds="2 live, fingerprint and short-term mechanism", covers=3),
+]
+_G_RTT = [_g("glue_rtt_staleness", bounds="two consecutive requests with an arbitrary gap 0..1300 s", covers=2)]
+
+_SLICE_OUT = ("more than 2 concurrent requests; the environment model of stun-rs and the light mechanism models are trusted to allow everything the real code can do (the real codec and the real mechanisms are checked separately); "
+              "transaction ids drawn from a counter (the RNG never repeats an id); arbitrary bytes -> client composition on the real stack")
+prop("C05", _G_SEND[:3] + _G_TIMEOUT1 + _G_TIMEOUT2 + _G_RECV, outside=_SLICE_OUT,
+     assumptions=["Inv (table ids == queue ids) characterises the reachable client states; base + step harnesses establish it for <= 2 live requests", "for indications the mechanisms answer Ok or Discarded only (holds for both real mechanisms by reading; see C07)"])
+DESCR["C05"] = {
+    "level": "Bounded model checking of the real client.rs as glue: induction base plus one arbitrary operation (send, timer call with any subset of deadlines due and any schedule answer, received buffer with any decoding/fingerprint/mechanism verdict) from a havocked state with <= 2 live requests; asserts exactly one final event per finished id, removal from table and queue, silence otherwise, and the invariant again. Histories of any length follow by induction within the 2-request bound.",
+    "note": "Assume/guarantee: stun-rs, the mechanisms, the deadline queue and the RTO schedule are replaced by models (listed as stubs in evidence); counterexamples are model-level and are confirmed by a native test on the real stack before being called defects.",
+}
+prop("C12", _G_SEND + [_G_TIMEOUT1[1], _G_TIMEOUT1[2], _G_TIMEOUT2[3]] + [_G_RECV[1], _G_RECV[3]], outside=_SLICE_OUT + "; limits above 3",
+     assumptions=["as C05"])
+DESCR["C12"] = {
+    "level": "Same inductive step as C05 with the limit symbolic (0..3): send_request is refused with MaxOutstandingRequestsReached exactly when the table is full, a refusal changes nothing, every final outcome (response, failure, time-out, retry) removes exactly one entry, indications never change the table.",
+    "note": "As C05; 'counts exactly the unfinished requests' = Inv + this step.",
+}
+prop("C17", _G_RECV, outside=_SLICE_OUT + "; the mechanisms' own state on rejection (learned algorithm, cached parameters, violated-id marker) belongs to the C07/C08 harnesses on the real mechanism code",
+     assumptions=["as C05"])
+DESCR["C17"] = {
+    "level": "Frame condition on the on_buffer_recv step: whenever the real client returns Err (undecodable, request, unknown/finished id, fingerprint absent/wrong/failed, mechanism says Discarded) there are no events and the transaction table, per-transaction send instants, queue deadlines and RTT estimator are field-by-field unchanged.",
+    "note": "As C05. Credential-state frame conditions are outside this check (mechanisms are modelled here).",
+}
